@@ -264,6 +264,19 @@ class C10(Oracle):
 
 # =========================================================================== C11
 
+def exact_tie(ph, pulls, nu, rho, depth, rad, thr):
+    """8*phase/(2+pulls) == (nu*rho^depth)^2 as rational numbers, and both float evaluations are exact."""
+    from fractions import Fraction
+    if rad != thr or depth > 200:
+        return False
+    try:
+        lhs = Fraction(8 * ph, 2 + pulls)
+        t = Fraction(nu) * Fraction(rho) ** depth
+        return lhs == t * t and Fraction(thr) == t and Fraction(rad) ** 2 == lhs
+    except (OverflowError, ValueError):
+        return False
+
+
 def zoom_phase(t):
     ph = 1
     end = 2
@@ -366,7 +379,10 @@ class C11(Oracle):
         dec = set()
         for ph in {zoom_phase(done - 1), zoom_phase(done)}:
             rad = math.sqrt(8 * ph / (2 + pulls))
-            if close(rad, thr):
+            if exact_tie(ph, pulls, self.nu, self.rho, cell.get_depth(), rad, thr):
+                dec.add(True)       # radius == nu*rho^depth exactly (in rational arithmetic and in floats): "dropped to" holds
+                ctx.probes["c11-radius-meets-threshold-exactly"] += 1
+            elif close(rad, thr):
                 dec |= {True, False}
             else:
                 dec.add(rad <= thr)
